@@ -172,6 +172,10 @@ class Ranges:
                     return ISet.range(lo, hi)
             if expr.func.id == "abs" and len(expr.args) == 1:
                 return ISet.range(0, None)
+            if expr.func.id == "pow" and len(expr.args) == 3 and not expr.keywords:
+                m = self.const(expr.args[2])
+                if isinstance(m, int) and m > 0:
+                    return ISet.range(0, m - 1)
         if isinstance(expr, ast.IfExp):
             l, r = self.aeval(expr.body, st), self.aeval(expr.orelse, st)
             if l is not None and r is not None:
